@@ -1188,6 +1188,12 @@ def deep_eval(ctx, exe, mexe, cases, stats, ladder=True):
     if not cases:
         return 0
     args = ("--stack-kib", str(DEEP_STACK_KIB))
+    if crashed(run_impl(ctx, exe, ["P 8 1 1 0"], timeout=60, args=args)[0]) and \
+            not crashed(run_impl(ctx, exe, ["P 8 1 1 0"], timeout=60)[0]):
+        # setrlimit / re-exec not possible in this environment: the inherited limit is used (recorded)
+        ctx.note("the driver could not set its stack limit explicitly (--stack-kib): deep graphs run under the "
+                 "inherited limit")
+        args = ()
     res = run_impl(ctx, exe, [deep_line(c) for c in cases], timeout=240, args=args)
     small = [(c, deep_rows(c["N"], c["k"], c["shape"], c["rev"])) for c in cases if c["N"] <= 64]
     spec = {}
